@@ -640,6 +640,11 @@ func (x *runner) eval(c *kase, i, fill, from int) {
 			rq = int(msg[0])
 		}
 		x.record(c, i, fill, mode, mut, pre, f, o, rq, p.ver, digest([]byte(c.Ch+c.Net), msg), hexHead(msg), len(msg), map[string]any{"from": p.name})
+		if x.live && x.w.noip != nil && c.Kind == "findcontent" && c.St == "stored" && mut == "none" {
+			// the same request from a sender without an address in its record (the stored item is answered over uTP when it is large)
+			o2 := x.deliver(x.w.noip, string(protoOf[c.Net]), msg)
+			x.record(c, i, fill, mode, mut, pre, f, o2, rq, x.w.noip.ver, digest([]byte(c.Ch+c.Net+"noip"), msg), hexHead(msg), len(msg), map[string]any{"from": "noip"})
+		}
 		if x.live {
 			x.probe(c, i, fill, p)
 		}
